@@ -241,9 +241,44 @@ class CallMixin(object):
         else:
             res, st = self.fresh_of_sort(callee.returns or 'Opaque', 'ret_' + callee.name.split('/')[-1], st)
         ns2 = dict(ns)
+        for nm in names:
+            ns2['old(%s)' % nm] = ns[nm]
         ns2['result'] = res
-        pe3 = PureEval(ns2, defs=callee.defs, funcs=self.contract_funcs(st))
         st = st.clone()
+        if callee.yields is not None:
+            # caller's view of a generator contract, derived mechanically from the callee-side text:
+            # ghost trajectory g(0) = init, for every j < m: yield_ensures[g(j), v = P[j]] and
+            # g(j+1) = on_yield[g(j), P[j]]; ensures[g(m), NOUT = m]
+            traj = {}
+            for g, (sort, init) in callee.ghost.items():
+                if sort != 'Int':
+                    raise Unsupported('generator callee %s: ghost %s of sort %s has no caller view' % (callee.name, g, sort))
+                traj[g] = z3.Function('%s_%s!%d' % (callee.name.split('/')[-1], g, next(self._ids)), z3.IntSort(), z3.IntSort())
+            pe0 = PureEval(dict(ns2), defs=callee.defs, funcs=self.contract_funcs(st))
+            for g, (sort, init) in callee.ghost.items():
+                st.pc.append(traj[g](0) == to_int(pe0.text(init)))
+            j = fresh('tj')
+            nsj = dict(ns2)
+            for g in traj:
+                nsj[g] = IntV(traj[g](j))
+            nsj['v'] = res.get(j)
+            nsj['NOUT'] = IntV(j)
+            pej = PureEval(nsj, defs=callee.defs, funcs=self.contract_funcs(st))
+            body = [pej.boolean(t) for _, t in callee.yield_ensures]
+            for g, text in callee.on_yield:
+                body.append(traj[g](j + 1) == to_int(pej.text(text)))
+            for g in traj:
+                if g not in dict(callee.on_yield):
+                    body.append(traj[g](j + 1) == traj[g](j))
+            if pej.facts:
+                raise Unsupported('generator callee view with definitional facts')
+            if body:
+                st.pc.append(z3.ForAll([j], z3.Implies(z3.And(0 <= j, j < res.n), z3.And(*body))))
+            for g in traj:
+                ns2[g] = IntV(traj[g](res.n))
+            ns2['NOUT'] = IntV(res.n)
+            res.traj = traj
+        pe3 = PureEval(ns2, defs=callee.defs, funcs=self.contract_funcs(st))
         for label, text in callee.ensures:
             st.pc.append(pe3.boolean(text))
         st.pc.extend(pe3.facts)
